@@ -312,6 +312,35 @@ theorem countOf_rep (CRep : CustomId → List Val → Prop) (cnt : Nat) (fields 
         simp only [countOf, hty]
         exact ih _ hc h3
 
+theorem decU32s_flatMap : ∀ (xs : List Nat) (r : Bytes), (∀ x ∈ xs, x < 256 ^ 4) →
+    decU32s xs.length (xs.flatMap (leBytes 4) ++ r) = .ok (xs, r) := by
+  intro xs
+  induction xs with
+  | nil => intro r _; simp [decU32s]
+  | cons c cs ih =>
+    intro r hr
+    have hc := hr c (by simp)
+    have i := ih r (fun x hx => hr x (by simp [hx]))
+    have hl : (leBytes 4 c).length = 4 := leBytes_length 4 c
+    have e1 : (leBytes 4 c ++ (cs.flatMap (leBytes 4) ++ r)).take 4 = leBytes 4 c := List.take_left' hl
+    have e2 : (leBytes 4 c ++ (cs.flatMap (leBytes 4) ++ r)).drop 4 = cs.flatMap (leBytes 4) ++ r := List.drop_left' hl
+    have hn : ¬ (leBytes 4 c ++ (cs.flatMap (leBytes 4) ++ r)).length < 4 := by simp
+    simp only [List.flatMap_cons, List.length_cons, decU32s, List.append_assoc, hn, if_false, e1, e2, i,
+      ofLe_leBytes 4 c hc]
+
+/-- the aligned / fixed text writer only appends NULs to a text that fits -/
+theorem writeStr_fits (n align : Nat) (e : Bytes) (hl : e.length ≤ n) : ∃ k, writeStr n align e = e ++ List.replicate k 0 := by
+  unfold writeStr
+  by_cases ha : align > 1
+  · simp only [ha, if_true]
+    refine ⟨min (n - e.length) ((e.length + (align - 1)) / align * align - e.length), ?_⟩
+    rw [List.take_append, List.take_of_length_le hl]
+    simp [List.take_replicate]
+  · simp only [ha, if_false]
+    rw [List.take_of_length_le hl]
+    exact ⟨n - e.length, rfl⟩
+
+
 /-- well-formedness of a layout as far as the generic proof needs it (decidable) -/
 def Layout.wf (L : Layout) : Bool :=
   L.fields.all Field.sym &&
@@ -321,17 +350,19 @@ def Layout.wf (L : Layout) : Bool :=
    | .set _ => hasCount L.fields
    | .strEof wn rraw wraw align => rraw == wraw && (align == 4 || align ≤ 1) && wn % 4 == 0)
 
-/-- in-domain packet bodies of the layouts whose tail is absent or a vector -/
+/-- in-domain packet bodies: fixed-size kinds, counted vectors, sets of 32-bit words (first occurrences only,
+as the crate's `IndexSet` keeps them) and until-end-of-frame texts (NUL-free, within the maximum) -/
 def RepBody (CRep : CustomId → List Val → Prop) (L : Layout) (v : PVal) : Prop :=
   RepFields CRep (tailCount v.tail) L.fields v.vals ∧
   (match L.maxElems with | some m => tailCount v.tail ≤ m | none => True) ∧
   (match L.tail, v.tail with
    | .none, .none => True
    | .vec elt _ _, .elems es => ∀ e ∈ es, RepFields CRep 0 elt e
+   | .set _, .set xs => (∀ x ∈ xs, x < 256 ^ 4) ∧ dedup xs [] = xs
+   | .strEof wn _ _ _, .text e => e.length ≤ wn ∧ (0 : Nat) ∉ e
    | _, _ => False)
 
-/-- **bodies round-trip** (fixed-size kinds and kinds with a counted vector): decoding the writer's
-output returns the packet -/
+/-- **bodies round-trip** (every tail shape): decoding the writer's output returns the packet -/
 theorem decBody_encBody (env : Env) (CRep : CustomId → List Val → Prop) (LW : CustomLawful env CRep)
     (L : Layout) (hb : L.customBody = false) (hwf : L.wf = true) (v : PVal) (bs : Bytes)
     (hr : RepBody CRep L v) (he : encBody env L v = .ok bs) :
@@ -390,7 +421,33 @@ theorem decBody_encBody (env : Env) (CRep : CustomId → List Val → Prop) (LW 
             have d2 := decElems_encElems env CRep LW elt hes es b3 (List.replicate (if es.length % 2 = 1 then oddW else 0) 0) ht h3
             simp only [decTail, hc, tailCount, Option.getD, d2]
             cases v; simp_all
-      | set s => rw [hL] at ht; cases v.tail <;> simp at ht
-      | strEof a b c d => rw [hL] at ht; cases v.tail <;> simp at ht
+      | set s =>
+        rw [hL] at ht h2 htail
+        cases hv : v.tail with
+        | none => rw [hv] at ht; simp at ht
+        | elems es => rw [hv] at ht; simp at ht
+        | text t => rw [hv] at ht; simp at ht
+        | set xs =>
+          rw [hv] at ht h2 hf
+          simp only [encTail] at h2
+          injection h2 with h2; subst h2
+          have hc := countOf_rep CRep (tailCount (.set xs)) L.fields v.vals htail hf
+          have d2 := decU32s_flatMap xs [] ht.1
+          simp only [List.append_nil] at d2
+          simp only [decTail, hc, tailCount, Option.getD, d2, ht.2]
+          cases v; simp_all
+      | strEof wn rraw wraw align =>
+        rw [hL] at ht h2
+        cases hv : v.tail with
+        | none => rw [hv] at ht; simp at ht
+        | elems es => rw [hv] at ht; simp at ht
+        | set xs => rw [hv] at ht; simp at ht
+        | text e =>
+          rw [hv] at ht h2
+          simp only [encTail] at h2
+          injection h2 with h2; subst h2
+          obtain ⟨k, hk⟩ := writeStr_fits wn align e ht.1
+          simp only [decTail, hk, stripNul_no_nul e ht.2 k]
+          cases v; simp_all
 
 end Insim.Layout
